@@ -364,3 +364,33 @@ Proof.
   intros Hwf Hdl E Hdst Ec. destruct (flatten_copy_ready h h' Hwf Hdl E) as [Hd Hdis].
   apply copy_flat_exact; assumption.
 Qed.
+
+(* ------------------------------------------------------------------ what a refused copy leaves behind *)
+(* copy_flattened_data checks section by section: when the first section that does not fit is reached, everything in front of it
+   has been copied (and padded) exactly as a successful copy of that prefix would have done, and nothing else was touched *)
+Lemma copy_loop_refused l1 s l2 : forall mem dst ps e,
+  existsb (too_small dst) l1 = false -> too_small dst s = true ->
+  copy_loop (l1 ++ s :: l2) mem dst ps e =
+  (EInvalidArgument, snd (fst (copy_loop l1 mem dst ps e)), snd (copy_loop l1 mem dst ps e)).
+Proof.
+  induction l1 as [|a t IH]; intros mem dst ps e H1 Hs; cbn [app copy_loop].
+  - unfold too_small in Hs. apply orb_true_iff in Hs. cbn [fst snd].
+    destruct (dst <? soff s); [reflexivity|]. destruct Hs as [Hs|Hs]; [discriminate|]. rewrite Hs. reflexivity.
+  - cbn [existsb] in H1. apply orb_false_iff in H1. destruct H1 as [Ha Ht]. unfold too_small in Ha. apply orb_false_iff in Ha.
+    destruct Ha as [A1 A2]. rewrite A1, A2. apply IH; assumption.
+Qed.
+
+Theorem copy_flat_refused l1 s l2 mem dst ps pt :
+  existsb (too_small dst) l1 = false -> too_small dst s = true ->
+  copy_flat (l1 ++ s :: l2) mem dst ps pt = (EInvalidArgument, snd (fst (copy_loop l1 mem dst ps 0))) /\
+  fst (fst (copy_loop l1 mem dst ps 0)) = EOk.
+Proof.
+  intros H1 Hs. unfold copy_flat. rewrite (copy_loop_refused l1 s l2 mem dst ps 0 H1 Hs). split; [reflexivity|].
+  rewrite copy_loop_err, H1. reflexivity.
+Qed.
+
+(* non-vacuity: two sections, the second does not fit into 12 cells: the first one's 4 bytes are there, the rest is untouched *)
+Example copy_flat_refused_example :
+  copy_flat [mkSection 0 0 1 0 8 4 [1; 2; 3; 4] []; mkSection 1 0 8 8 0 8 [9; 9; 9; 9; 9; 9; 9; 9] []] (repeat 205 14) 12 true true
+  = (EInvalidArgument, [1; 2; 3; 4; 0; 0; 0; 0; 205; 205; 205; 205; 205; 205]).
+Proof. vm_compute. reflexivity. Qed.
